@@ -57,11 +57,6 @@ type jcase struct {
 	Endless bool         `json:"impl_table_did_not_end"`
 }
 
-const (
-	sigEndless = "selector-forceaggregate-without-createempty-never-ends"
-	sigTrail   = "selector-createempty-drops-empty-windows-after-block"
-)
-
 // ---- fake store
 type store struct {
 	row func(desc bool) reads.SeriesRow
@@ -259,15 +254,18 @@ func run(w *vh.W, c *jcase) {
 			lastIn = t
 		}
 	}
+	// The two former findings (selector+ForceAggregate without createEmpty never ended;
+	// selector+createEmpty dropped the empty windows after a 1000-row block) are repaired:
+	// the shapes are still generated and any failure on them is a violation again.
 	sig := ""
+	shape := ""
 	if isSel(c.Agg) && c.FA && !c.CE && inr > 0 {
-		sig = sigEndless
+		shape = "selector+forceAggregate, no createEmpty"
 	}
 	if isSel(c.Agg) && !c.FA && c.CE && c.TC == "" && inr > 0 && nwin > 1000 {
-		// trailing windows after the 1000-row block in which the data ends
 		k := int(floorDiv(lastIn-ws0, c.Every)) // index of the last non-empty window
 		if (k/1000+1)*1000 < nwin {
-			sig = sigTrail
+			shape = "selector+createEmpty, empty windows after the data's 1000-row block"
 		}
 	}
 	if errs != "" {
@@ -325,7 +323,7 @@ func run(w *vh.W, c *jcase) {
 	w.Count("force_aggregate", fmt.Sprint(c.FA))
 	w.Count("points_in_bounds", cls(inr))
 	w.Count("windows_in_bounds", cls(nwin))
-	w.Count("known_finding_shape", sig)
+	w.Count("formerly_failing_shape", shape)
 	if endless || errs != "" {
 		// the failure is reported through w.Fail; give the judge a case it accepts
 		t = fmt.Sprintf("{| c_ty := %s; c_k := %s; c_bs := 0; c_be := 1; c_every := 1; c_off := 0; c_ce := false; c_tc := TNone; c_fa := false; c_all := []; c_chunks := []; c_rows := Some [] |}", tyc, coqAgg[c.Agg])
